@@ -5,6 +5,7 @@
 //               description), aug (rows of the noise block appended by augmentWithNoise,
 //               0 = none), overload (0 FunctionEvaluation, 1 StateModel, 2 AdditiveStateModel,
 //               3 MeasurementModel, 4 AdditiveMeasurementModel), fail (1: the evaluation fails);
+//               aug2 (optional: rows of a second noise block appended by a second augmentWithNoise), Qaug2;
 //               mats params, means (d x comps), covs (dc x dc*comps), Qaug, A (p x d'), b (p x 1),
 //               N (pc x pc additive noise covariance).
 #define VF_MAIN
@@ -87,9 +88,11 @@ int main() {
         const long comps = means.cols();
         GaussianMixture mix(comps, lin, circ, quat);
         mix.mean() = means; mix.covariance() = covs;
+        const long q2 = c.has_int("aug2") ? c.integer("aug2") : 0;
         if (q > 0) { vf::Entry e("GaussianMixture::augmentWithNoise"); mix.augmentWithNoise(c.mat("Qaug")); }
+        if (q2 > 0) { vf::Entry e("GaussianMixture::augmentWithNoise(second)"); mix.augmentWithNoise(c.mat("Qaug2")); }
         GaussianMixture mix_copy(mix);
-        VectorDescription din = desc(lin, circ, q, quat), dout = desc(olin, ocirc, 0, oquat);
+        VectorDescription din = desc(lin, circ, q + q2, quat), dout = desc(olin, ocirc, 0, oquat);
         vf::out_begin(c.id);
         std::unique_ptr<sigma_point::UTWeight> w;
         { vf::Entry e("UTWeight::UTWeight"); w.reset(new sigma_point::UTWeight(din, alpha, beta, kappa)); }
